@@ -61,7 +61,7 @@ def run(chk):
     if r.violated:
         raise MachineryError(f"Dispatch table inconsistent: {r.counterexample()[:2000]}")
     dom = [c for c in dispatch.domain() if not (c["pol"] and c["tl"]) and not (c["qed"] > 0 and (c["method"] != "iterate-exact" or c["pol"] or c["tl"]))
-           and not ((c["pol"] or c["tl"]) and c["qcd"] == 4)]
+           and not ((c["pol"] or c["tl"]) and c["qcd"] == 4) and not (c["qcd"] == 4 and c["top"])]
     pairs = []
     for s in SETTINGS:
         # the domain used in C04 fixes inv="none" off downward paths and emrun=False without QED: exactly the irrelevant cases
